@@ -2032,6 +2032,14 @@ def regenerate():
         text = "-- translation failed: " + str(e).replace("\n", " ") + "\n"
     hw = hdr.replace("import Cachelito.RustLite\n", "import Cachelito.RustLite\nimport Cachelito.Generated.PureGlobal\nimport Cachelito.Generated.PureThread\n")
     write_if_changed(os.path.join(GEN_DIR, "PureWrap.lean"), hw + "namespace Wrap\nvariable {K V F E T : Type} [DecidableEq K]\n\n" + text + "\nend Wrap\nend Cachelito.Generated\n")
+    try:
+        text, winfo = translate_async_wrapper()
+        info["async_wrapper"] = winfo
+    except Exception as e:
+        problems.append("cachelito-async-macros/src/lib.rs: " + (str(e) if isinstance(e, Untranslatable) else f"translator error {e!r}"))
+        text = "-- translation failed: " + str(e).replace("\n", " ") + "\n"
+    ha = hdr.replace("import Cachelito.RustLite\n", "import Cachelito.RustLite\nimport Cachelito.Generated.PureAsync\n")
+    write_if_changed(os.path.join(GEN_DIR, "PureWrapAsync.lean"), ha + "namespace WrapAsync\nvariable {K V F E T : Type} [DecidableEq K]\n\n" + text + "\nend WrapAsync\nend Cachelito.Generated\n")
     info["problems"] = problems
     return info
 
@@ -2592,6 +2600,23 @@ class GenInterp:
             raise Untranslatable(f"{self.fname}: unknown variable `{e[1][0]}` in a generator function")
         if k == "unary" and e[1] == "!":
             return not self.ev(e[2], env)
+        if k == "field" and e[1][0] == "path" and len(e[1][1]) == 1:
+            name = e[1][1][0] + "." + e[2]
+            if name in env:
+                return env[name]
+            raise Untranslatable(f"{self.fname}: unknown field `{name}` in a generator function")
+        if k == "str":
+            return ("strlit", e[1])
+        if k == "mcall" and e[2] == "to_string" and not e[4]:
+            v = self.ev(e[1], env)
+            if isinstance(v, list):
+                return ("strlit", " ".join(t[1] for t in v))
+            raise Untranslatable(f"{self.fname}: `to_string` of a non-token value in a generator function")
+        if k == "mcall" and e[2] == "contains" and len(e[4]) == 1:
+            v, a = self.ev(e[1], env), self.ev(e[4][0], env)
+            if isinstance(v, tuple) and v[0] == "strlit" and isinstance(a, tuple) and a[0] == "strlit":
+                return a[1] in v[1]
+            raise Untranslatable(f"{self.fname}: `contains` on non-strings in a generator function")
         if k == "if":
             c = self.ev(e[1], env)
             if not isinstance(c, bool):
@@ -2737,6 +2762,161 @@ def translate_wrapper():
                        f"def {name} (A : RustLite.F64 F) (clock : RustLite.Clock) (size : {vt} → Nat) (fuel : Nat) (rs : List Nat)\n"
                        f"    (invalidate_on__ cache_if__ : K → {vt} → Bool) (__cache : {WrapperProfile.ENGINE[module][1]} K {vt} F) (key__ : K) (body__ : {vt}) :=\n  {text}\n")
             info["configs"].append(name)
+    return "\n".join(out), info
+
+
+# `#[cache_async]` (cachelito-async-macros/src/lib.rs): `invalidation_check`, `insert_call` and `cache_insert` are computed by
+# `let` statements of the proc-macro function itself and spliced into `generate_cache_logic_block`'s template.  Those `let`s
+# (from `let limit_expr` to `let cache_logic`) are EVALUATED here for each of the 16 configurations.
+
+ASYNC_NEW_PARAMS = ["cache", "order", "limit", "max_memory", "policy", "ttl", "frequency_weight", "stats"]
+
+
+def async_wrapper_template(fns, fname, cfgbits):
+    has_mm, is_result, has_io, has_ci = cfgbits
+    gi = GenInterp(fns, fname)
+    ident = lambda n: [("id", n, 0)]
+    f = fns.get("cache_async")
+    if f is None:
+        raise Untranslatable(f"{fname}: `cache_async` is missing")
+    body = body_of(f)
+    env = {"attrs.invalidate_on": ("some", ident("invalidate_on__")) if has_io else None,
+           "attrs.cache_if": ("some", ident("cache_if__")) if has_ci else None,
+           "attrs.limit": ident("limit__"), "attrs.ttl": ident("ttl__"), "attrs.policy": ident("policy__"),
+           "attrs.frequency_weight": ident("frequency_weight__"),
+           "attrs.max_memory": ([("id", "Some", 0), ("p", "(", 0), ("id", "max_memory__", 0), ("p", ")", 0)] if has_mm
+                                else [("id", "None", 0)]),
+           "is_result": is_result, "key_expr": ident("key__"), "cache_ident": ident("CACHE__"), "order_ident": ident("ORDER__"),
+           "stats_ident": ident("STATS__"), "block": [("p", "{", 0)] + ident("body__") + [("p", "}", 0)]}
+    wanted = ["limit_expr", "policy_str", "ttl_expr", "max_memory_expr", "frequency_weight_expr", "policy_expr",
+              "invalidation_check", "cache_logic"]
+    seen = []
+    for st in body[1]:
+        if st[0] == "let" and st[1][0] == "pid" and st[1][1] in wanted:
+            env[st[1][1]] = gi.ev(st[3], env)
+            seen.append(st[1][1])
+        elif st[0] == "let" and st[1][0] == "pid" and st[1][1] in ("is_result", "key_expr", "block"):
+            pass            # bound above: the configuration bit / the placeholders
+    if seen != wanted:
+        raise Untranslatable(f"{fname}: `cache_async` no longer computes {wanted} in this order (found {seen})")
+    toks = env["cache_logic"]
+    if not isinstance(toks, list):
+        raise Untranslatable(f"{fname}: `cache_logic` is not a token stream")
+    # `(async { body__ }).await` is the body's value
+    pat = ["(", "async", "{", "body__", "}", ")", ".", "await"]
+    hits = [i for i in range(len(toks) - len(pat) + 1) if [t[1] for t in toks[i:i + len(pat)]] == pat]
+    if len(hits) != 1:
+        raise Untranslatable(f"{fname}: the template no longer awaits the body exactly once as `(async #block).await`")
+    i = hits[0]
+    toks = toks[:i] + ident("body__") + toks[i + len(pat):]
+    if any(t[1] in ("await", "async") for t in toks):
+        raise Untranslatable(f"{fname}: the template awaits something besides the body")
+    return [("p", "{", 0)] + toks + [("p", "}", 0), ("eof", "", 0)]
+
+
+def check_async_new(block, fname, has_mm, new_params):
+    """the statement `let __cache = AsyncGlobalCache::new(…)`: the attribute values must reach the parameters of the same
+    name (limit and max_memory have the same type; a swap would compile).  Returns the block without that statement."""
+    stmts = []
+    found = False
+    for st in block[1]:
+        if st[0] == "let" and st[1] == ("pid", "__cache"):
+            e = st[3]
+            if not (e[0] == "call" and e[1][0] == "path" and e[1][1][-2:] == ["AsyncGlobalCache", "new"]):
+                raise Untranslatable(f"{fname}: `__cache` is no longer built by `AsyncGlobalCache::new`")
+            args = [render_tokens_of(a) for a in e[2]]
+            expect = {"cache": "CACHE__", "order": "ORDER__", "limit": "limit__", "max_memory": "Some(max_memory__)" if has_mm else "None",
+                      "policy": "EvictionPolicy::from(policy__)", "ttl": "ttl__", "frequency_weight": "frequency_weight__", "stats": "STATS__"}
+            if len(args) != len(new_params):
+                raise Untranslatable(f"{fname}: `AsyncGlobalCache::new` takes {len(new_params)} parameters, the template passes {len(args)}")
+            for pn, a in zip(new_params, args):
+                if pn not in expect or expect[pn] not in a:
+                    raise Untranslatable(f"{fname}: parameter `{pn}` of `AsyncGlobalCache::new` receives `{a}`")
+            found = True
+            continue
+        stmts.append(st)
+    if not found:
+        raise Untranslatable(f"{fname}: the template does not build `__cache`")
+    return (block[0], stmts, block[2]) + tuple(block[3:])
+
+
+def render_tokens_of(ast):
+    """flat text of an expression AST (only for the argument check above)"""
+    if isinstance(ast, tuple):
+        if ast and ast[0] == "path":
+            return "::".join(ast[1])
+        if ast and ast[0] == "call":
+            return render_tokens_of(ast[1]) + "(" + ",".join(render_tokens_of(a) for a in ast[2]) + ")"
+        if ast and ast[0] in ("ref", "deref", "paren"):
+            return render_tokens_of(ast[1])
+        return "(" + " ".join(render_tokens_of(x) for x in ast[1:]) + ")"
+    if isinstance(ast, list):
+        return " ".join(render_tokens_of(x) for x in ast)
+    return str(ast)
+
+
+class AsyncWrapperProfile(PureProfile):
+    """the async wrapper body: `__cache` is the async engine"""
+
+    def __init__(self, is_result):
+        super().__init__({"__cache": "engine"}, {})
+        self.is_result = is_result
+        self.uses_float = self.uses_clock = self.uses_size = True
+
+    def mut_method(self, name, recv=None):
+        r = strip_guard(recv) if recv is not None else None
+        if r is not None and r[0] == "path" and r[1] == ["__cache"] or recv is None:
+            table = {"get": ("Async.get clock", True),
+                     "insert": ("Async.insert A clock (RustLite.headRand rs)", False),
+                     "insert_with_memory": ("Async.insert_with_memory A clock size fuel rs", False)}
+            if name in table:
+                return table[name]
+        return None
+
+    def call(self, segs, generics, args, em, env):
+        if segs == ["invalidate_on__"] and len(args) == 2:
+            return f"(invalidate_on__ {em.expr(args[0], env)} {em.expr(args[1], env)})"
+        if segs == ["cache_if__"] and len(args) == 2:
+            return f"(cache_if__ {em.expr(args[0], env)} {em.expr(args[1], env)})"
+        return None
+
+    def method(self, recv, name, generics, args, em, env):
+        if name == "is_ok" and not args:
+            return f"(RustLite.isOk {em.expr(recv, env)})"
+        return super().method(recv, name, generics, args, em, env)
+
+
+def translate_async_wrapper():
+    """Generated/PureWrapAsync.lean: 16 configurations of `#[cache_async]`"""
+    rel = "cachelito-async-macros/src/lib.rs"
+    fns = {f["name"]: f for (_, f) in parse_source(os.path.join(REPO, rel))}
+    eng = {f["name"]: f for (_, f) in parse_source(os.path.join(REPO, "cachelito-core/src/async_global_cache.rs"))}
+    if "new" not in eng:
+        raise Untranslatable("cachelito-core/src/async_global_cache.rs: `AsyncGlobalCache::new` is missing")
+    new_params = [pn for (pn, _) in eng["new"]["params"] if pn != "self"]
+    out = []
+    info = {"configs": [], "new_params": new_params}
+    for bits in range(16):
+        cfgbits = (bool(bits & 8), bool(bits & 4), bool(bits & 2), bool(bits & 1))
+        toks = async_wrapper_template(fns, rel, cfgbits)
+        where = rel + f" (cache_async, max_memory={cfgbits[0]}, result={cfgbits[1]}, invalidate_on={cfgbits[2]}, cache_if={cfgbits[3]})"
+        block = Parser(toks, where).parse_block()
+        block = check_async_new(block, where, cfgbits[0], new_params)
+        prof = AsyncWrapperProfile(cfgbits[1])
+        em = Emitter(prof, where)
+        env = ["__cache", "key__", "body__"]
+        K = Cont(normal=lambda env2: em.fail("wrapper without a value"),
+                 ret=lambda v, env2: "(" + em.expr(v, env2) + ", __cache)",
+                 value=lambda ast, env2: "(" + em.expr(ast, env2) + ", __cache)")
+        text = seq(em, list(block[1]), env, K, "\n  ", tail=block[2])
+        vt = "(Except E T)" if cfgbits[1] else "V"
+        name = f"wrapAsync_{''.join('1' if b else '0' for b in cfgbits)}"
+        out.append(f"/-- `{rel}` `cache_async`: max_memory {'set' if cfgbits[0] else 'absent'}, "
+                   f"{'Result' if cfgbits[1] else 'plain'} return type, invalidate_on {'set' if cfgbits[2] else 'absent'}, "
+                   f"cache_if {'set' if cfgbits[3] else 'absent'} -/\n"
+                   f"def {name} (A : RustLite.F64 F) (clock : RustLite.Clock) (size : {vt} → Nat) (fuel : Nat) (rs : List Nat)\n"
+                   f"    (invalidate_on__ cache_if__ : K → {vt} → Bool) (__cache : RustLite.AsyncCache K {vt} F) (key__ : K) (body__ : {vt}) :=\n  {text}\n")
+        info["configs"].append(name)
     return "\n".join(out), info
 
 
